@@ -21,7 +21,7 @@ pub fn run(tier: Tier, seed: u64) -> ! {
     // seeded histories of overlapping sessions, judged by specification + deviation model
     if crate::txo::rules_as_modelled(&rep) {
         let fail = |on: bool| crate::hooks::FAIL_COMMIT.store(on, std::sync::atomic::Ordering::SeqCst);
-        let n: u64 = std::env::var("C01_OVERLAP").ok().and_then(|s| s.parse().ok()).unwrap_or(tier.pick(400, 12_000));
+        let n: u64 = std::env::var("C01_OVERLAP").ok().and_then(|s| s.parse().ok()).unwrap_or(tier.pick(800, 12_000));
         for case in 0..n {
             crate::txo::overlap_history(&mut rep, seed, case, crate::txo::Mode::Isolation, &fail);
         }
